@@ -6,5 +6,10 @@ class Plugin(HistPlugin):
     id = 'C14'
     extra_import = 'HistProps HistPropCheck'
     check_fn = 'c14_check'
+    weights = {'insert_one': 5, 'insert_many': 3, 'update': 6, 'replace': 3, 'delete': 5, 'fam': 10}
+    rule = ('states with several matching documents x sort specifications x projections (including ones '
+            'dropping _id) x return-document mode x upsert, through update_one, replace_one, delete_one and '
+            'find_one_and_*. Non-trivial = at least two documents match the filter of a single-document '
+            'operation; distinct by canonical JSON.')
     FINDING_BITS = 2 | 8
     UNDECIDED_BITS = 1 | 4
